@@ -1,7 +1,12 @@
 (* C03 - Property change protocol: silent on equal; about-to-change, then changed, once.
-   Model: coq/PropDefs.v (Property::setHelper = set_helper).  The model's value type is Z with Z.eqb as equality;
-   a user-specialised equal_to and types without operator== are exercised by the harness only (see DESIGN.md). *)
+   Two models: coq/PropDefs.v (Property::setHelper = set_helper) is the network model (observers that act, bindings, moves),
+   its value type is Z with Z.eqb as equality; coq/PropEq.v is one property under an ARBITRARY equality relation eqv
+   (operator==, a user-specialised equal_to, 'never equal', non-reflexive relations such as NaN), run against Property<T> for
+   five element types by harness/eq_harness.cpp. *)
+From Coq Require Import List ZArith.
+Import ListNotations.
 From KDB Require Import Util PropDefs PropProofs.
+From KDB Require PropEq PropEqProofs.
 
 Theorem C03_equal_is_silent :
   forall fn rtl f w p pr, lookup (w_props w) p = Some pr -> set_helper fn rtl (S f) w p (pr_value pr) = (w, None).
@@ -37,4 +42,64 @@ Example C03_example :
   w_trace (run (fun _ _ => None) true 5 ops) =
     [EvDone None; EvDone None; EvNotify 101 KChanged [7%Z] (Some 7%Z); EvNotify 100 KAbout [5%Z; 7%Z] (Some 5%Z);
      EvDone None; EvDone None; EvDone None; EvDone None].
+Proof. vm_compute. reflexivity. Qed.
+
+(* ---- every equality relation (PropEq.v) ---- *)
+
+(* a value the relation deems equal to the current one changes nothing and notifies nobody *)
+Theorem C03_any_equality_equal_is_silent :
+  forall (V : Type) (eqv : V -> V -> bool) s v, eqv v (PropEq.e_cur s) = true -> PropEq.ewrite V eqv s v = (s, []).
+Proof. exact PropEqProofs.write_equal_silent. Qed.
+Print Assumptions C03_any_equality_equal_is_silent.
+
+(* any other value: first every about-to-change observer (indices 0..na-1: each once, in subscription order) is told (old, new)
+   while get() = old, then every changed observer (0..nc-1) is told (new) while get() = new; the value stored is the new one *)
+Theorem C03_any_equality_protocol :
+  forall (V : Type) (eqv : V -> V -> bool) s v, eqv v (PropEq.e_cur s) = false ->
+    PropEq.ewrite V eqv s v =
+      ({| PropEq.e_cur := v; PropEq.e_na := PropEq.e_na s; PropEq.e_nc := PropEq.e_nc s |},
+       map (fun i => PropEq.EAbout i (PropEq.e_cur s) v (PropEq.e_cur s)) (seq 0 (PropEq.e_na s)) ++
+       map (fun j => PropEq.EChanged j v v) (seq 0 (PropEq.e_nc s))).
+Proof. exact PropEqProofs.write_protocol. Qed.
+Print Assumptions C03_any_equality_protocol.
+
+(* the write path does not matter, and writing the property's own value (p = p.get()) is an ordinary write *)
+Theorem C03_any_equality_paths_agree :
+  forall (V : Type) (eqv : V -> V -> bool) s p q v,
+    PropEq.estep V eqv s (PropEq.EW p v) = PropEq.estep V eqv s (PropEq.EW q v) /\
+    PropEq.estep V eqv s (PropEq.EWCur p) = PropEq.ewrite V eqv s (PropEq.e_cur s).
+Proof. intros. split; reflexivity. Qed.
+Print Assumptions C03_any_equality_paths_agree.
+
+(* "consequently an observer that replays the changed notifications always holds the property's current value": for every
+   equality relation, every sequence of writes (any path, any value, the property's own value) and later subscriptions *)
+Theorem C03_replay_holds_current_value :
+  forall (V : Type) (eqv : V -> V -> bool) ops s idx held s' ls,
+    idx < PropEq.e_nc s -> held = PropEq.e_cur s -> PropEq.erun V eqv s ops = (s', ls) ->
+    PropEq.replay V idx held ls = PropEq.e_cur s'.
+Proof. exact PropEqProofs.replay_holds_current. Qed.
+Print Assumptions C03_replay_holds_current_value.
+
+(* 'never equal' (types without comparison, or an equal_to that says so): every write is announced to every observer *)
+Theorem C03_never_equal_always_announces :
+  forall f s v, f = PropEq.FNever \/ f = PropEq.FNoEq ->
+    length (snd (PropEq.ewrite Z (PropEq.eqv_of f) s v)) = PropEq.e_na s + PropEq.e_nc s.
+Proof. exact PropEqProofs.never_equal_always_announces. Qed.
+Print Assumptions C03_never_equal_always_announces.
+
+(* equal under the custom relation but not identical: silent; a NaN re-assigned to itself: announced *)
+Theorem C03_custom_equal_silent :
+  forall s v, (v mod 10 = PropEq.e_cur s mod 10)%Z -> PropEq.ewrite Z (PropEq.eqv_of PropEq.FMod) s v = (s, []).
+Proof. exact PropEqProofs.custom_equal_silent. Qed.
+Print Assumptions C03_custom_equal_silent.
+Theorem C03_nan_self_assignment_announced :
+  forall s, (PropEq.e_cur s < 0)%Z -> PropEq.e_nc s > 0 ->
+    snd (PropEq.estep Z (PropEq.eqv_of PropEq.FNan) s (PropEq.EWCur 1)) <> [].
+Proof. exact PropEqProofs.nan_self_assign_announces. Qed.
+Print Assumptions C03_nan_self_assignment_announced.
+
+Example C03_any_equality_example :
+  PropEq.erun_f PropEq.FMod 12 1 1 [PropEq.EW 0 22%Z; PropEq.EW 1 13%Z; PropEq.EWCur 1] =
+    ({| PropEq.e_cur := 13%Z; PropEq.e_na := 1; PropEq.e_nc := 1 |},
+     [[]; [PropEq.EAbout 0 12%Z 13%Z 12%Z; PropEq.EChanged 0 13%Z 13%Z]; []]).
 Proof. vm_compute. reflexivity. Qed.
